@@ -55,8 +55,11 @@ Record generic := { g_name : str; g_modprocs : list str }.
 Inductive skind :=
   | KUnit     (* module, program, external procedure, block data: its parent (the file) has no tables *)
   | KProc     (* a procedure contained in a unit or in another procedure *)
-  | KBody.    (* the body of an interface / abstract interface block: reached through the interface
+  | KBody     (* the body of an interface / abstract interface block: reached through the interface
                  object, which aliases its host's all_procs, all_types, all_absinterfaces *)
+  | KSub.     (* a submodule: a unit (no parent tables) whose dictionaries are UPDATED WITH those of its
+                 parent submodule (if it has one) or else its ancestor module, after its own
+                 declarations have been entered: the host's entries win over the submodule's own *)
 
 Record srec := {
   s_path : list str;                 (* unit name ... scope name *)
@@ -67,7 +70,9 @@ Record srec := {
   s_types : list dtype;
   s_generics : list generic;
   s_vars : list var;                 (* variables, then dummy arguments (and the result variable) *)
-  s_imports : list (cls * (str * ent)) }.   (* use-associated names, in merge order *)
+  s_imports : list (cls * (str * ent));     (* use-associated names, in merge order *)
+  s_host : list str }.                      (* KSub: path of the parent submodule or ancestor module unit
+                                               that FORD found ([] if none); [] for every other scope *)
 
 Inductive event := Enter (Sc : srec) | Exit.
 
@@ -165,9 +170,17 @@ Definition model_resolver (ss : stores) (E : env) : resolver :=
   end.
 
 (* ------------------------------------------------------------------ traversal *)
-Record state := { st_stores : stores; st_next : nat; st_stack : list env; st_out : list res }.
+(* st_units: the environments of the units correlated so far (their dictionaries stay in the store) *)
+Record state := { st_stores : stores; st_next : nat; st_stack : list env; st_out : list res;
+                  st_units : list (list str * env) }.
 Definition init_state : state :=
-  {| st_stores := {| sp := []; sa := []; sy := [] |}; st_next := 0; st_stack := []; st_out := [] |}.
+  {| st_stores := {| sp := []; sa := []; sy := [] |}; st_next := 0; st_stack := []; st_out := [];
+     st_units := [] |}.
+Fixpoint find_unit_env (units : list (list str * env)) (p : list str) : option env :=
+  match units with
+  | [] => None
+  | (q, E) :: us => if list_eqb str_eqb q p then Some E else find_unit_env us p
+  end.
 
 Definition own (Sc : srec) (names : list str) : list (str * ent) :=
   map (fun n => (n, s_path Sc ++ [n])) names.
@@ -183,6 +196,7 @@ Definition own_names (Sc : srec) (c : cls) : list str :=
 Definition parent_env (Sc : srec) (stack : list env) : option env :=
   match s_kind Sc, stack with
   | KUnit, _ => None
+  | KSub, _ => None
   | _, E :: _ => Some E
   | _, [] => None
   end.
@@ -190,23 +204,34 @@ Definition enter_scope (Sc : srec) (s : state) : state :=
   let ss := st_stores s in
   let n := st_next s in
   let parent := parent_env Sc (st_stack s) in
-  (* every dictionary: {**parent's, **own declarations}, then .update(names from USED modules) *)
-  let mk := fun c => update (update (match parent with Some E => tab ss E c | None => [] end)
-                                    (own Sc (own_names Sc c))) (imports_of Sc c) in
+  (* every dictionary: {**parent's, **own declarations}, then .update(names from USED modules);
+     a submodule: own declarations, .update(host unit's dictionary), then the names from USED modules *)
+  let mk := fun c =>
+    match s_kind Sc with
+    | KSub => update (update (update [] (own Sc (own_names Sc c)))
+                             (match find_unit_env (st_units s) (s_host Sc) with Some E => tab ss E c | None => [] end))
+                     (imports_of Sc c)
+    | _ => update (update (match parent with Some E => tab ss E c | None => [] end)
+                          (own Sc (own_names Sc c))) (imports_of Sc c)
+    end in
   let ia := n in
   let it := n in
   let ss' := {| sp := st_set n (mk CProc) (sp ss); sa := st_set ia (mk CAbs) (sa ss);
                 sy := st_set it (mk CType) (sy ss) |} in
   let E := {| e_scope := Sc; e_procs := n; e_abs := ia; e_types := it |} in
   {| st_stores := ss'; st_next := S n; st_stack := E :: st_stack s;
-     st_out := st_out s ++ map (answer (model_resolver ss' E)) (enter_reqs Sc) |}.
+     st_out := st_out s ++ map (answer (model_resolver ss' E)) (enter_reqs Sc); st_units := st_units s |}.
 
 Definition exit_scope (s : state) : state :=
   match st_stack s with
   | [] => s
   | E :: rest =>
     {| st_stores := st_stores s; st_next := st_next s; st_stack := rest;
-       st_out := st_out s ++ map (answer (model_resolver (st_stores s) E)) (exit_reqs (e_scope E)) |}
+       st_out := st_out s ++ map (answer (model_resolver (st_stores s) E)) (exit_reqs (e_scope E));
+       st_units := match rest with
+                   | [] => st_units s ++ [(s_path (e_scope E), E)]     (* a unit is finished *)
+                   | _ => st_units s
+                   end |}
   end.
 Definition step (s : state) (ev : event) : state :=
   match ev with Enter Sc => enter_scope Sc s | Exit => exit_scope s end.
@@ -232,13 +257,20 @@ Definition local_lookup (Sc : srec) (c : cls) (n : str) : option ent :=
 Definition find_scope (all : list srec) (p : list str) : option srec :=
   find (fun Sc => list_eqb str_eqb (s_path Sc) p) all.
 (* look in the scope with path p, then in its host (path without the last name), and so on *)
+(* the host of the scope with path p: the enclosing scope; for a submodule its parent submodule or
+   ancestor module *)
+Definition next_path (all : list srec) (p : list str) : list str :=
+  match find_scope all p with
+  | Some Sc => match s_host Sc with [] => removelast p | h => h end
+  | None => removelast p
+  end.
 Fixpoint resolve_fuel (fuel : nat) (all : list srec) (p : list str) (lookf : srec -> option ent) : option ent :=
   match fuel with
   | 0 => None
   | S f =>
     match (match find_scope all p with Some Sc => lookf Sc | None => None end) with
     | Some e => Some e
-    | None => match p with [] => None | _ :: _ => resolve_fuel f all (removelast p) lookf end
+    | None => match p with [] => None | _ :: _ => resolve_fuel f all (next_path all p) lookf end
     end
   end.
 (* procedure(n): n is a procedure with an explicit interface or an abstract interface; one
@@ -251,7 +283,7 @@ Definition look_in (Sc : srec) (lk : look) (n : str) : option ent :=
   | LAbs => local_lookup Sc CAbs n
   end.
 Definition spec_resolver (all : list srec) (p : list str) : resolver :=
-  fun lk n => resolve_fuel (S (length p)) all p (fun Sc => look_in Sc lk n).
+  fun lk n => resolve_fuel (S (length p + length all)) all p (fun Sc => look_in Sc lk n).
 Definition resolve_in (all : list srec) (p : list str) (c : cls) (n : str) : option ent :=
   spec_resolver all p (match c with CType => LType | _ => LProc end) n.
 
@@ -274,18 +306,26 @@ Definition spec_procs_first (evs : list event) : list res :=
 
 (* ------------------------------------------------------------------ well-formed input, regions *)
 (* events are well bracketed; a unit is entered on an empty stack, every other scope inside its
-   host, its path being the host's path plus one name; paths are pairwise different *)
-Fixpoint wf_ev (stack : list (list str)) (evs : list event) : bool :=
+   host, its path being the host's path plus one name; the host unit of a submodule has been
+   finished before; paths are pairwise different *)
+Fixpoint wf_ev (closed stack : list (list str)) (evs : list event) : bool :=
   match evs with
   | [] => match stack with [] => true | _ => false end
   | Enter Sc :: evs' =>
     (match stack, s_kind Sc with
-     | [], KUnit => Nat.eqb (length (s_path Sc)) 1
+     | [], KUnit => Nat.eqb (length (s_path Sc)) 1 && Nat.eqb (length (s_host Sc)) 0
+     | [], KSub => Nat.eqb (length (s_path Sc)) 1
+                   && (Nat.eqb (length (s_host Sc)) 0 || existsb (list_eqb str_eqb (s_host Sc)) closed)
      | p :: _, KProc | p :: _, KBody =>
        list_eqb str_eqb (removelast (s_path Sc)) p && negb (Nat.eqb (length (s_path Sc)) 0)
+       && Nat.eqb (length (s_host Sc)) 0
      | _, _ => false
-     end) && wf_ev (s_path Sc :: stack) evs'
-  | Exit :: evs' => match stack with [] => false | _ :: st => wf_ev st evs' end
+     end) && wf_ev closed (s_path Sc :: stack) evs'
+  | Exit :: evs' => match stack with
+                    | [] => false
+                    | [p] => wf_ev (closed ++ [p]) [] evs'
+                    | _ :: st => wf_ev closed st evs'
+                    end
   end.
 Fixpoint nodup_paths (l : list (list str)) : bool :=
   match l with
@@ -293,7 +333,7 @@ Fixpoint nodup_paths (l : list (list str)) : bool :=
   | p :: l' => negb (existsb (list_eqb str_eqb p) l') && nodup_paths l'
   end.
 Definition wf_events (evs : list event) : bool :=
-  wf_ev [] evs && nodup_paths (map s_path (scopes_of evs)).
+  wf_ev [] [] evs && nodup_paths (map s_path (scopes_of evs)).
 
 (* every declaration and use-associated name of class c in the unit *)
 Definition all_decls (c : cls) (all : list srec) : list (str * ent) :=
@@ -316,6 +356,19 @@ Definition scopes_legal (evs : list event) : bool := forallb scope_legal (scopes
 Definition procabs_ok (all : list srec) (p : list str) (n : str) : bool :=
   opt_eqb ent_eqb (spec_resolver all p LProcAbs n)
           (match spec_resolver all p LProc n with Some e => Some e | None => spec_resolver all p LAbs n end).
+(* region of the submodule finding: an own declaration of a submodule bears a name that is visible
+   in its parent submodule / ancestor module (the host's entity replaces the submodule's own) *)
+Definition sub_shadow_free (evs : list event) : bool :=
+  let all := scopes_of evs in
+  forallb (fun Sc => match s_kind Sc with
+                     | KSub => forallb (fun c => forallb (fun n =>
+                                   match spec_resolver all (s_host Sc)
+                                           (match c with CType => LType | CProc => LProc | CAbs => LAbs end) n with
+                                   | Some _ => false
+                                   | None => true
+                                   end) (own_names Sc c)) [CProc; CAbs; CType]
+                     | _ => true
+                     end) all.
 Definition procabs_consistent (evs : list event) : bool :=
   let all := scopes_of evs in
   forallb (fun Sc => forallb (fun q => match q_look q with
